@@ -133,6 +133,54 @@ func (v *VerifNode) Redeliver() []raftpb.Entry {
 	return ents
 }
 
+// verifSyncer hands over the blocks begin..end in order, as the state syncer does after fetching them from the peers
+type verifSyncer struct{}
+
+func (verifSyncer) SyncCFTBlocks(begin, end uint64, blockCh chan *pb.Block) error {
+	for h := begin; h <= end; h++ {
+		blockCh <- &pb.Block{BlockHeader: &pb.BlockHeader{Number: h}, Transactions: &pb.Transactions{}}
+	}
+	blockCh <- nil
+	return nil
+}
+
+func (verifSyncer) SyncBFTBlocks(begin, end uint64, metaHash *types.Hash, blockCh chan *pb.Block) error {
+	return nil
+}
+
+// InstallSnapshot: raft hands the follower a snapshot (index idx, chain height `height`), as in the Ready handler:
+// the snapshot is stored and recoverFromSnapshot catches up through the syncer; `ledger` is what the executor has
+// persisted (getChainMetaFunc).  Returns the heights minted into commitC by this call.
+func (v *VerifNode) InstallSnapshot(idx, height, ledger uint64) ([]uint64, error) {
+	n := v.N
+	meta := &pb.ChainMeta{Height: height, BlockHash: &types.Hash{}}
+	data, err := meta.Marshal()
+	if err != nil {
+		return nil, err
+	}
+	snap := raftpb.Snapshot{Data: data, Metadata: raftpb.SnapshotMetadata{Index: idx, Term: 1, ConfState: n.confState}}
+	if err := n.raftStorage.Store(nil, raftpb.HardState{Term: 1, Commit: idx}, snap); err != nil {
+		return nil, err
+	}
+	n.getChainMetaFunc = func() *pb.ChainMeta { return &pb.ChainMeta{Height: ledger, BlockHash: &types.Hash{}} }
+	n.syncer = verifSyncer{}
+	before := len(n.commitC)
+	n.recoverFromSnapshot()
+	var minted []uint64
+	k := len(n.commitC) - before
+	var evs []*pb.CommitEvent
+	for len(n.commitC) > 0 {
+		evs = append(evs, <-n.commitC)
+	}
+	for i, e := range evs {
+		if i >= len(evs)-k && e != nil {
+			minted = append(minted, e.Block.BlockHeader.Number)
+		}
+		n.commitC <- e
+	}
+	return minted, nil
+}
+
 func VerifEntry(idx uint64, height uint64, empty bool) raftpb.Entry {
 	if empty {
 		return raftpb.Entry{Term: 1, Index: idx, Type: raftpb.EntryNormal}
